@@ -352,9 +352,12 @@ func genDeps(r *hx.Rand, pool int, withVia bool) string {
 	items := make([]string, n)
 	for i := range items {
 		// one name beyond the pool: a dependency nobody defines
-		name := r.Intn(pool + 1)
+		name := r.Intn(pool)
+		if r.Chance(1, 8) {
+			name = pool
+		}
 		o := "r"
-		if r.Chance(35, 100) {
+		if r.Chance(40, 100) {
 			o = "o"
 		}
 		items[i] = fmt.Sprintf("%d:%s", name, o)
@@ -394,7 +397,11 @@ func genDef(r *hx.Rand, pool int) string {
 func genReq(r *hx.Rand, pool int) string {
 	switch x := r.Intn(100); {
 	case x < 60:
-		return fmt.Sprintf("get %d", r.Intn(pool+1))
+		name := r.Intn(pool)
+		if r.Chance(1, 8) {
+			name = pool
+		}
+		return fmt.Sprintf("get %d", name)
 	case x < 90:
 		return "inject " + genDeps(r, pool, false)
 	case x < 95:
@@ -407,7 +414,7 @@ func genReq(r *hx.Rand, pool int) string {
 func genProgram(r *hx.Rand, w *bufio.Writer) {
 	pool := 1 + r.Intn(6)
 	fmt.Fprintln(w, "new")
-	ndefs := pool/2 + r.Intn(pool+3)
+	ndefs := pool - pool/3 + r.Intn(pool+3)
 	for i := 0; i < ndefs; i++ {
 		fmt.Fprintln(w, genDef(r, pool))
 		if r.Chance(1, 40) { // an early request: everything after it must be refused
